@@ -23,6 +23,7 @@ import (
 	"encoding/hex"
 	"encoding/json"
 	"errors"
+	"fmt"
 	"io"
 	"math"
 	"net/http"
@@ -377,7 +378,12 @@ func (m *lfsModule) handleHTTPProduce(w http.ResponseWriter, r *http.Request) {
 	}
 	defer func() { _ = backendConn.Close() }()
 
-	_, err = m.forwardToBackend(r.Context(), backendConn, payload)
+	respBytes, err := m.forwardToBackend(r.Context(), backendConn, payload)
+	if err == nil {
+		// A transport-level success says nothing about the record: the broker
+		// reports rejections (not leader, backpressure, authorization) per partition.
+		err = lfsProduceAckError(respBytes, reqHeader.APIVersion)
+	}
 	if err != nil {
 		m.metrics.IncRequests(topic, "error", "lfs")
 		m.trackOrphans([]orphanInfo{{Topic: topic, Key: objectKey, RequestID: requestID, Reason: "kafka_produce_failed"}})
@@ -1086,7 +1092,11 @@ func (m *lfsModule) handleHTTPUploadComplete(w http.ResponseWriter, r *http.Requ
 	}
 	defer func() { _ = backendConn.Close() }()
 
-	if _, err := m.forwardToBackend(r.Context(), backendConn, payload); err != nil {
+	respBytes, err := m.forwardToBackend(r.Context(), backendConn, payload)
+	if err == nil {
+		err = lfsProduceAckError(respBytes, reqHeader.APIVersion)
+	}
+	if err != nil {
 		m.trackOrphans([]orphanInfo{{Topic: session.Topic, Key: session.S3Key, RequestID: requestID, Reason: "kafka_produce_failed"}})
 		m.tracker.EmitUploadFailed(requestID, session.Topic, session.S3Key, "backend_error", err.Error(), "kafka_produce", session.TotalUploaded, 0)
 		m.lfsWriteHTTPError(w, requestID, session.Topic, http.StatusBadGateway, "backend_error", err.Error())
@@ -1101,6 +1111,29 @@ func (m *lfsModule) handleHTTPUploadComplete(w http.ResponseWriter, r *http.Requ
 	w.Header().Set("Content-Type", "application/json")
 	w.WriteHeader(http.StatusOK)
 	_ = json.NewEncoder(w).Encode(env)
+}
+
+// lfsProduceAckError inspects the broker's reply to the envelope produce
+// request: the record is acknowledged only if the reply decodes, answers at
+// least one partition, and every partition carries error code 0.
+func lfsProduceAckError(respBytes []byte, version int16) error {
+	resp, err := parseProduceResponse(respBytes, version)
+	if err != nil {
+		return err
+	}
+	acked := 0
+	for _, topic := range resp.Topics {
+		for _, part := range topic.Partitions {
+			if part.ErrorCode != protocol.NONE {
+				return fmt.Errorf("broker rejected envelope record for %s/%d: error code %d", topic.Topic, part.Partition, part.ErrorCode)
+			}
+			acked++
+		}
+	}
+	if acked == 0 {
+		return errors.New("broker reply acknowledges no partition")
+	}
+	return nil
 }
 
 func (m *lfsModule) handleHTTPUploadAbort(w http.ResponseWriter, r *http.Request, requestID, sessionID string) {
